@@ -1,7 +1,7 @@
 #!/bin/bash
-# usage: tools/verify_seed.sh <PID> <n>  -- confirm a seeded change in its scratch worktree /tmp/seed/<PID> and, if confirmed,
+# usage: tools/verify_seed.sh <PID> <n> [<stored number>]  -- confirm a seeded change in its scratch worktree /tmp/seed/<PID> and, if confirmed,
 # keep it as /verif/seeded/<PID>-<n>/ (patch.diff, demo/, meta.json with what was run here)
-PID=$1; N=$2; WT=/tmp/seed/$PID; S=$WT/SEED/$N
+PID=$1; N=$2; M=${3:-$2}; WT=/tmp/seed/$PID; S=$WT/SEED/$N
 [ -d "$S" ] || S=$WT/SEED
 cd $WT || exit 2
 git checkout -q -- . ; git clean -fdq sudachi python sudachi-cli plugin 2>/dev/null
@@ -26,7 +26,7 @@ for f in $S/demo/*.rs; do st=$(basename $f .rs); cargo test -p $PKG --offline -j
 git checkout -q -- . ; git clean -fdq sudachi sudachi-cli 2>/dev/null
 echo "$PID-$N: suite_exit=$SUITE passed=$PASSED failed=$FAILED demo_with_change_failed=$DEMO_WITH demo_without_change_failed=$DEMO_WITHOUT"
 if [ $SUITE -eq 0 ] && [ "$FAILED" = "0" ] && [ $DEMO_WITH -eq 1 ] && [ $DEMO_WITHOUT -eq 0 ]; then
-  D=/verif/seeded/$PID-$N; mkdir -p $D; cp $S/patch.diff $D/; rm -rf $D/demo; cp -r $S/demo $D/demo
+  D=/verif/seeded/$PID-$M; mkdir -p $D; cp $S/patch.diff $D/; rm -rf $D/demo; cp -r $S/demo $D/demo
   python3 - "$S/meta.json" "$D/meta.json" "$PID" "$PASSED" <<'PY'
 import json,sys
 src,dst,pid,passed=sys.argv[1:5]
